@@ -167,6 +167,18 @@ def cases(tier, rng, level=None):
         yield "live", ["live", iface, []]
         yield "live", ["live", iface, [mk(("data",), "one"), mk(("id", "event", "data"), "two\r\n\u2028", "n", "i"), mk(("retry",), retry=5),
                                        mk(("data",), "")]]
+    # live sequences: events with no field at all (the documented heart-beat event {}), empty data, falsy values —
+    # nothing but the end of the generator may end the stream
+    live_items = [[], mk(("data",), ""), mk(("data",), "x"), mk(("id",), id_=""), mk(("retry",), retry=0), mk(("event", "data"), "0", name="e")]
+    for iface in ("wsgi", "asgi"):
+        for a, b in itertools.product(live_items, repeat=2):
+            yield "live", ["live", iface, [a, b]]
+        for a in live_items:
+            yield "live", ["live", iface, [a]]
+            yield "live", ["live", iface, [mk(("data",), "first"), a, mk(("data",), "last")]]
+        for _ in range(10 if level == 0 else 150):
+            items = [rng.choice(live_items) if rng.random() < 0.5 else rand_event(rng, 6) for _ in range(rng.randrange(1, 7))]
+            yield "live", ["live", iface, items]
     # (g) arbitrary streams: Coq transcription of the standard vs the Python transcription
     for n in range((4 if level == 0 else 5) + 1):
         for t in itertools.product(STREAM_TOKENS, repeat=n):
